@@ -1,0 +1,11 @@
+//go:build verif
+
+package acme
+
+// VerifInject installs a client, and the account it belongs to, in a signer
+// created by NewSigner. Used by the verification harness only (build tag verif).
+func VerifInject(s Signer, client Client, account Account) {
+	sg := s.(*signer)
+	sg.client = client
+	sg.account = account
+}
